@@ -510,8 +510,14 @@ func (sc *Scenario) rotationFile(csv bool) string {
 		line("OTHERF", RotEntry{Crop: "WW", Sow: Date{sc.Start.Y - 1, 10, 1}, Harvest: Date{sc.Start.Y, 8, 1}, Rex: 0, Yld: 50})
 		line("OTHERF", RotEntry{Crop: "SM", Sow: Date{sc.Start.Y + 1, 5, 1}, Harvest: Date{sc.Start.Y + 1, 10, 1}})
 	}
-	for _, e := range sc.Rotation {
+	// a third of the files with several fields are sorted by season, not by field: the entries of the simulated field are
+	// interleaved with entries of another field (its lines do not form one block)
+	inter := sc.OtherField && NewRng(mix(mix(sc.Seed, uint64(sc.Index)), 8585)).Bool(0.33)
+	for i, e := range sc.Rotation {
 		line(sc.Field, e)
+		if inter && i%2 == 1 {
+			line("OTHERF", RotEntry{Crop: "WG", Sow: e.Sow.AddDays(-3), Harvest: e.Harvest.AddDays(4), Rex: 100, Yld: 40})
+		}
 	}
 	if sc.OtherField {
 		line("ZZZ", RotEntry{Crop: "WW", Sow: Date{sc.Start.Y - 1, 10, 1}, Harvest: Date{sc.Start.Y, 8, 1}, Rex: 0, Yld: 50})
